@@ -71,13 +71,8 @@ func newC10Machine(bg *[65536]uint8) *c10Machine {
 // cloneFrom rebuilds m as a *fresh* CPU value from copies of o's public state.
 func (m *c10Machine) cloneFrom(o *c10Machine) {
 	m.mem.CopyFrom(o.mem)
-	m.io.Reset()
-	m.io.X, m.io.Y = o.io.X, o.io.Y
-	for range o.io.Log {
-		// the device answers depend on the number of earlier reads: replay the counter
-	}
-	*m.io = obs.IO{X: o.io.X, Y: o.io.Y, Fixed: true}
-	m.io.Fixed = o.io.Fixed
+	// the device answers independently of its history (Fixed), so a copy is its parameters
+	*m.io = obs.IO{X: o.io.X, Y: o.io.Y, Fixed: o.io.Fixed}
 	fresh := &z80.CPU{States: o.cpu.States, HALT: o.cpu.HALT, Memory: m.mem, IO: m.io}
 	if o.cpu.Interrupt != nil {
 		cp := *o.cpu.Interrupt
@@ -130,8 +125,6 @@ func c10Snapshot(a, b *c10Machine, p *c10Prog, only int) ([]string, int) {
 		reqAt[r.J] = r.Kind
 	}
 	steps := 0
-	var snaps []*c10Machine
-	_ = snaps
 	// run the original, keeping its trajectory
 	run := func(m *c10Machine, from int, cmp bool) []string {
 		for j := from; j < p.Steps; j++ {
@@ -237,6 +230,11 @@ type c10Iso struct {
 // c10IsoRun runs encoding e on two CPUs with different data under schedule
 // prefix; returns the final digests of both and the execution.
 func c10IsoBody(bg *[65536]uint8, e *Enc, results *[2]refz80.State, logs *[2]string, nsteps int) func(s *sched.Scheduler) {
+	return c10IsoBodyReq(bg, e, results, logs, nsteps, -1)
+}
+
+// c10IsoBodyReq: as c10IsoBody, with a request of kind reqKind (see c10IsoReq) pending on both CPUs (-1: none).
+func c10IsoBodyReq(bg *[65536]uint8, e *Enc, results *[2]refz80.State, logs *[2]string, nsteps int, reqKind int) func(s *sched.Scheduler) {
 	return func(s *sched.Scheduler) {
 		for t := 0; t < 2; t++ {
 			t := t
@@ -251,6 +249,11 @@ func c10IsoBody(bg *[65536]uint8, e *Enc, results *[2]refz80.State, logs *[2]str
 			}
 			*w.io = obs.IO{X: uint8(0x30 + t), Y: 0x35}
 			toCPU(&cs.S, w.cpu)
+			if reqKind >= 0 {
+				w.cpu.IFF1, w.cpu.IFF2 = true, true
+				w.cpu.IM, w.cpu.Interrupt = c10IsoReq(reqKind, t)
+				w.mem.Poke(uint16(w.cpu.IR.Hi)<<8|0x40, uint8(0x10+t), 0x20)
+			}
 			w.mem.Hook = func(bool, uint16) { s.Point("mem") }
 			w.io.Hook = func(bool, uint8) { s.Point("io") }
 			s.Go(fmt.Sprintf("cpu%d", t), func() {
@@ -266,6 +269,28 @@ func c10IsoBody(bg *[65536]uint8, e *Enc, results *[2]refz80.State, logs *[2]str
 		}
 	}
 }
+
+// c10IsoReq returns the interrupt mode and a request of the given kind for CPU t
+// (different data per CPU where the kind has data).
+func c10IsoReq(kind, t int) (int, *z80.Interrupt) {
+	switch kind {
+	case 0:
+		return 1, z80.NMIInterrupt()
+	case 1:
+		return 1, z80.IM1Interrupt()
+	case 2:
+		return 2, z80.IM2Interrupt(0x40)
+	case 3:
+		return 0, z80.IM0Interrupt(uint8(0xCF + 0x10*t)) // RST 08 / RST 18
+	case 4:
+		return 0, z80.IM0Interrupt(0xCD, uint8(0x34+t), 0x12) // CALL 1234 / CALL 1235
+	case 5:
+		return 0, z80.IM0Interrupt(uint8(0x3C + t)) // INC A / DEC A
+	}
+	return 0, z80.IM0Interrupt(0x21, uint8(0x11*(t+1)), 0x22) // LD HL,nn
+}
+
+const c10IsoReqKinds = 7
 
 func checkC10(c *Ctx) {
 	bg := obsBackground(c)
@@ -400,6 +425,37 @@ func checkC10(c *Ctx) {
 			}
 		}
 	}, func() bool { return atomic.LoadInt32(&capped) != 0 })
+	// both CPUs accept an interrupt at the same time (NMI, IM1, IM2, mode-0 RST / CALL / INC / LD with
+	// different request data), followed by the first instruction at the target: all interleavings
+	nop := buildEnc([]uint8{0x00})
+	for kind := 0; kind < c10IsoReqKinds; kind++ {
+		var solo, res [2]refz80.State
+		var sololog, logs [2]string
+		sched.Execute(nil, 4000, c10IsoBodyReq(bg, &nop, &solo, &sololog, 2, kind))
+		st := sched.Explore(-1, 4000, 400000, c10IsoBodyReq(bg, &nop, &res, &logs, 2, kind), func(x *sched.Scheduler) bool {
+			if pv, tr := x.Panic(); pv != nil {
+				c.Report(fmt.Sprintf("c10/isolation:request-kind-%d", kind), int64(kind), "", c10Iso{Enc: fmt.Sprintf("request kind %d", kind), Sched: x.Choices(), Salt: c.Salt}, []string{fmt.Sprintf("panic under schedule %v: %v", x.Choices(), pv), tr})
+				return false
+			}
+			for _, s := range x.Steps {
+				if s.Chosen != 0 {
+					sw[0]++
+					break
+				}
+			}
+			for t := 0; t < 2; t++ {
+				if res[t] != solo[t] || logs[t] != sololog[t] {
+					c.Report(fmt.Sprintf("c10/isolation:request-kind-%d", kind), int64(kind), "", c10Iso{Enc: fmt.Sprintf("request kind %d", kind), Sched: x.Choices(), Salt: c.Salt},
+						[]string{fmt.Sprintf("2 CPUs accepting a request of kind %d at the same time (0 NMI, 1 IM1, 2 IM2, 3 mode-0 RST, 4 mode-0 CALL, 5 mode-0 INC/DEC A, 6 mode-0 LD HL,nn), schedule %v: CPU %d ends differently from its solo run", kind, x.Choices(), t),
+							fmt.Sprintf("solo:        %v %s", stateMap(&solo[t]), sololog[t]), fmt.Sprintf("interleaved: %v %s", stateMap(&res[t]), logs[t])})
+					return false
+				}
+			}
+			return true
+		})
+		counters[0] += int64(st.Executions)
+		pts[0] += int64(st.Points)
+	}
 	for i := range counters {
 		isoExecs += counters[i]
 		isoPoints += pts[i]
